@@ -816,6 +816,11 @@ func runScenario(c Case) realResult {
 		defer f.snapMu.Unlock()
 		return f.snapped && f.cm.countSent(comm.TssInitiateMsg) > f.init1
 	}, f.done, flim) {
+		if rs.Shape == "culprit" {
+			// the excluded culprit keeps talking: its fail message for the session reaches the failing relayer
+			// while it collects the ready messages of the replacement attempt
+			w.net.inject(idP, idF, comm.TssFailMsg, c.Sid, []byte{})
+		}
 		for _, p := range c.Ready2 {
 			if scripted[p] {
 				f.cm.arriveSync(&comm.WrappedMessage{MessageType: comm.TssReadyMsg, SessionID: c.Sid, From: t.ids[p]}, lim)
@@ -833,6 +838,11 @@ func runScenario(c Case) realResult {
 			if !waitFor(func() bool { return n.proc.runCount() >= 2 }, n.done, lim) {
 				expired(lim)
 			}
+		}
+		if rs.Shape == "culprit" {
+			// ... and while the replacement Run is in progress the culprit's fail message reaches both
+			w.net.inject(idP, idF, comm.TssFailMsg, c.Sid, []byte{})
+			w.net.inject(idP, third.self, comm.TssFailMsg, c.Sid, []byte{})
 		}
 		// ... and complete
 		if rs.AwaitSig && !d.Stuck {
@@ -1149,6 +1159,12 @@ func realCases(peers []string, sid string, holders []int, sign string, rs RealSp
 	ct.Ready2 = cf.Ready2
 	cf.Msgs2 = nil
 	ct.Msgs2 = []Msg{{Type: "initiate", From: F}, {Type: "start", From: F, Params: subset2}}
+	if rs.Shape == "culprit" {
+		// the fail messages of the excluded culprit: to the failing relayer while it collects the ready messages
+		// and while the replacement Run is in progress, to the left-out holder while its replacement Run is in progress
+		cf.Msgs2 = []Msg{{Type: "fail", From: P}, {Type: "fail", From: P}}
+		ct.Msgs2 = append(ct.Msgs2, Msg{Type: "fail", From: P})
+	}
 	return cf, ct
 }
 
